@@ -60,9 +60,14 @@ class Impl:
     def run_ecase(self, fname, v0, v1, app, body):
         """body: [(class name, leaves)].  Returns dict(bytes, dec, oracle_ok)."""
         rows = self.rows[fname]
-        instrs = [self.build_instr(rows[n], lv) for n, lv in body]
-        sub = self.Subroutine(instructions=instrs, netqasm_version=(v0, v1), app_id=app)
         try:
+            # a refusal may come at construction, at instantiate() or at bytes(): all count as "rejected"
+            instrs = [self.build_instr(rows[n], lv) for n, lv in body]
+            if getattr(self, "app_via_instantiate", False):
+                sub = self.Subroutine(instructions=instrs, netqasm_version=(v0, v1), app_id=0)
+                sub.instantiate(app, {})
+            else:
+                sub = self.Subroutine(instructions=instrs, netqasm_version=(v0, v1), app_id=app)
             raw = bytes(sub)
         except Exception as e:  # any refusal to encode
             return dict(bytes=None, dec=None, oracle_ok=None, err=type(e).__name__)
